@@ -223,7 +223,7 @@ func (sc *SCtx) traceBuiltin(x SCall) (Val, types.Type, bool, error) {
 			return Val{}, nil, true, err
 		}
 		return tv(app(SF64, "fp.neg", a.T)), types.Typ[types.Float64], true, nil
-	case "i2f", "f2i", "band", "bor", "bxor", "shl", "shr", "mulw", "concat", "tdiv", "trem", "fadd", "fsub", "fmul", "fdiv", "flt", "fle", "feq":
+	case "i2f", "f2i", "band", "bor", "bxor", "shl", "shr", "mulw", "concat", "substr", "tdiv", "trem", "fadd", "fsub", "fmul", "fdiv", "flt", "fle", "feq":
 		var as2 []Term
 		for _, a := range x.Args {
 			v, _, err := sc.eval(a)
@@ -242,6 +242,11 @@ func (sc *SCtx) traceBuiltin(x SCall) (Val, types.Type, bool, error) {
 		case "band", "bor", "bxor", "shl", "shr", "mulw":
 			e.decls.fun(x.Fun, []string{"Int", "Int"}, "Int")
 			return tv(app(SInt, x.Fun, as2...)), nil, true, nil
+		case "substr":
+			// substr(s, lo, hi): the Go slice expression s[lo:hi] on a string (the same term the executor builds)
+			e.declStr()
+			e.decls.fun("substr", []string{"Int", "Int", "Int"}, "Int")
+			return tv(app(SInt, "substr", as2...)), types.Typ[types.String], true, nil
 		case "concat":
 			e.declStr()
 			e.decls.fun("str_concat", []string{"Int", "Int"}, "Int")
